@@ -20,7 +20,9 @@ HARNESS_DIR = os.path.join(VERIF, "harness")
 HARNESS = os.path.join(HARNESS_DIR, "target", "release", "rce_harness")
 DRIVER = os.path.join(LEAN, ".lake", "build", "bin", "driver")
 WORK = os.path.join(VERIF, "work")
-EVID = os.path.join(VERIF, "evidence")
+# the committed evidence describes runs against /repo itself; a run pointed at another tree (RCE_REPO=<scratch worktree with a seeded
+# change>) writes its evidence next to the other scratch output instead
+EVID = os.path.join(VERIF, "evidence") if os.path.realpath(REPO) == "/repo" else os.path.join(VERIF, "work", "evidence-other-tree")
 REPLAYS = os.path.join(VERIF, "replays")
 ALLOWED_AXIOMS = {"propext", "Classical.choice", "Quot.sound"}
 FORBIDDEN = re.compile(r"\bsorry\b|\badmit\b|^\s*axiom\s|native_decide|bv_decide|implemented_by|\bunsafe\s|maxHeartbeats\s+0\b", re.M)
